@@ -25,6 +25,18 @@ Fixpoint no_tag_start (l : text) : bool :=
   | c :: r => if (c =? SP) || (c =? TAB) then no_tag_start r else negb (c =? AT)
   end.
 
+Fixpoint skip_blanks (l : text) : text :=
+  match l with c :: r => if is_blank c then skip_blanks r else l | [] => [] end.
+
+(** a description block that directly follows a tag line: its first non-blank line does not start with
+    something the doc parser would take as a continuation of that tag ([continues_tag] of Model.v is the list:
+    generic parameters, array / index suffix, parent list, binary and postfix type operators, a string literal) *)
+Fixpoint no_continuation (ls : list text) : bool :=
+  match ls with
+  | [] => true
+  | l :: r => if blank_line l then no_continuation r else negb (continues_tag (skip_blanks l))
+  end.
+
 Definition prims : list text :=
   [T "string"; T "integer"; T "number"; T "boolean"; T "nil"; T "table"; T "any"].
 
